@@ -19,6 +19,8 @@ LIB = {
     "txt": "text<txt>{% slot 's' default / %}</txt>",
     "wrap": "{% component 'one' %}{% slot 's' default / %}{% endcomponent %}",       # its root element is the inner <one>
     "deep": "<deep><in>{% component 'one' / %}</in>{% slot 's' default / %}</deep>",
+    # output that STARTS with a nested component and has more root content after it
+    "lead": "{% component 'one' / %}<lead>{% slot 's' default / %}</lead>{% component 'one' / %}",
 }
 
 
@@ -33,7 +35,7 @@ def calls(depth):
         if depth > 0:
             for sub in calls(depth - 1):
                 yield (name, [sub])
-        if depth > 0 and name in ("one", "deep"):
+        if depth > 0 and name in ("one", "deep", "lead"):
             subs = list(itertools.islice(calls(depth - 1), 0, 4))
             for a, b in itertools.product(subs[:2], repeat=2):
                 yield (name, [a, b])
@@ -80,6 +82,15 @@ def expected_marks(call, counter, enclosing_roots):
         inner = counter[0]
         counter[0] += 1
         out.append(("one", mine + [inner])); out += kid_marks([])
+    elif name == "lead":
+        first = counter[0]
+        counter[0] += 1
+        out.append(("one", mine + [first]))
+        out.append(("lead", mine))
+        out += kid_marks([])
+        second = counter[0]
+        counter[0] += 1
+        out.append(("one", mine + [second]))
     elif name == "deep":
         inner = counter[0]
         out.append(("deep", mine))
@@ -107,31 +118,23 @@ def worker(job):
         out = Template("{% load component_tags %}" + src(prog)).render(Context({}))
         t = Tree()
         t.feed(out)
-        marked = [(tag, ids) for tag, _d, ids in t.elements if tag in ("one", "two1", "two2", "txt", "deep")]
+        marked = [(tag, ids) for tag, _d, ids in t.elements if tag in ("one", "two1", "two2", "txt", "deep", "lead")]
         want = expected_marks(prog, [0], [])
         what = None
         if [m[0] for m in marked] != [w[0] for w in want]:
             what = f"elements {[m[0] for m in marked]} but expected {[w[0] for w in want]}"
         else:
-            # instance number -> id, learnt from the first element each instance marks; then every claim is checked
-            inst = {}
-            for (tag, ids), (_t, who) in zip(marked, want):
-                if len(ids) != len(who):
-                    what = f"<{tag}> carries {len(ids)} render ids {sorted(ids)} but is the root of {len(who)} instance(s)"
-                    break
-            if what is None:
-                # consistency: the same instance must use the same id on all its roots, distinct instances distinct ids
+            # instance number -> render id: the _RENDERED markers appear in the order in which the instances were created
+            marker_ids = re.findall(r"<!--\s*_RENDERED\s+[\w\-\./]+?,(\w+?),", out)
+            n_inst = max((w for _t, who in want for w in who), default=-1) + 1
+            if len(marker_ids) != n_inst or len(set(marker_ids)) != len(marker_ids):
+                what = f"{len(marker_ids)} markers ({len(set(marker_ids))} distinct ids) for {n_inst} instances"
+            else:
                 for (tag, ids), (_t, who) in zip(marked, want):
-                    known = {inst[w] for w in who if w in inst}
-                    if not known <= ids:
-                        what = f"<{tag}> lacks the id its instance used on an earlier root"
+                    exp = {marker_ids[w].lower() for w in who}       # (html.parser lower-cases attribute names)
+                    if ids != exp:
+                        what = f"<{tag}> carries render ids {sorted(ids)} but is the root of the instances with ids {sorted(exp)}"
                         break
-                    new = [w for w in who if w not in inst]
-                    free = sorted(ids - known)
-                    for w, i in zip(new, free):
-                        inst[w] = i
-                if what is None and len(set(inst.values())) != len(inst):
-                    what = "two instances share a render id"
         other = [(tag, ids) for tag, _d, ids in t.elements if tag == "in" and ids]
         if what is None and other:
             what = f"a non-root element carries render ids: {other}"
